@@ -210,7 +210,7 @@ class LeanProject:
         rc, out, err = sh(["lake", "env", "lean", str(f)], cwd=self.dir, timeout=1800)
         text = out + err
         thms, problems = {}, []
-        for m in re.finditer(r"'([^']+)' (does not depend on any axioms|depends on axioms: \[([^\]]*)\])", text, re.S):
+        for m in re.finditer(r"'([^\n]+?)' (does not depend on any axioms|depends on axioms: \[([^\]]*)\])", text, re.S):  # names may end in primes
             axs = [a.strip() for a in (m.group(3) or "").replace("\n", " ").split(",") if a.strip()]
             thms[m.group(1)] = axs
             bad = [a for a in axs if a not in STD_AXIOMS]
